@@ -30,6 +30,7 @@ BOUND = ("global grids GlobalLagrangeGrid (p in {1,2,3,5}) and GlobalBSplineGrid
          "q_d <= min(p, n_d-1, cap_d), cap_d = (smallest cell depth)+1 for Lagrange (a depth-k cell has k+2 ancestor knots), 2^(deepest "
          "complete level) for B-splines (equal to n_d-1 on the uniform grids of the local classes); basis clauses for every distinct 1-D "
          "basis object of every grid built")
+BOUND += "; fault / magnitude additions: nodal tables of python ints / numpy int64 for half of the data seeds; interpolate_grid at 3-4 coordinates per dimension against interpolate"
 RULE = BOUND + ("; a case is one (class, p, flags, domain, per-dimension level sequences or area+level vector, data seed); non-trivial = "
                 "the grid has at least two points in some dimension")
 BUDGET = {"quick": 60.0, "thorough": 840.0}
